@@ -1201,6 +1201,12 @@ func (r *Run) binop(op token.Token, a, b Value, ta, tb types.Type) Value {
 			panic(unsupported(fmt.Sprintf("binop %v on Term and %T", op, b)))
 		}
 		if r.intMode != nil {
+			// a bit-vector constant that escaped conversion (frozen init-time data, closures) meets an Int term
+			if x.w == IntW && y.w != IntW && y.w != 0 {
+				y = r.fixSort(y, tb).(*Term)
+			} else if y.w == IntW && x.w != IntW && x.w != 0 {
+				x = r.fixSort(x, ta).(*Term)
+			}
 			if v, ok := r.intMode.binop(r, op, x, y, ta, tb); ok {
 				return v
 			}
